@@ -457,9 +457,9 @@ class C10(Suite):
     # ---------------------------------------------------------------------------------------- cases
     def cases(self, tier, rng):
         quick = tier == "quick"
-        yield from self.src_cases(rng, 400 if quick else 6000)
+        yield from self.src_cases(rng, 400 if quick else 10000)
         yield from self.grid_cases(rng, quick)
-        yield from self.random_programs(rng, 2500 if quick else 60000)
+        yield from self.random_programs(rng, 2500 if quick else 150000)
         yield from self.lib_cases(rng, quick)
 
     def src_cases(self, rng, n):
